@@ -51,7 +51,7 @@ var props = map[string]propCfg{
 			"the generic list loops ParseList / ParseList2 terminate (variant: bytes left) whenever the element parser strictly advances on every live state that is not at end of input, the separator step does not go back and end of input ends the list; an EOF token exists only at the end of the buffer (scanTokenAt, nextToken)",
 		},
 		Scans:      []func(*run){scanFsWrites},
-		NotDecided: []string{"termination of the rest of the recursive-descent parser (expressions, statements, definitions) and of type inference (a known non-terminating input, DESIGN §6: `let f x = x x`)", "a type factory stored in the scope (a function value) is assumed to return or panic"},
+		NotDecided: []string{"termination of the rest of the recursive-descent parser (expressions, statements, definitions) and of unification (updateResolver); resolveOneTypeVar terminates under the carve-out of known finding F10 and the assumed clause that transTVFType calls its parameter only on the type variables it reaches", "a type factory stored in the scope (a function value) is assumed to return or panic"},
 	},
 	"C15": {
 		Modules: []string{"fc"},
